@@ -26,6 +26,7 @@ def run(chk, facts, tier):
     chk.rule('nesn-on-every-tx', 'every return of next_transmit() goes through set_next_expected_sequence_number(), which writes the NESN bit from next_expected_sequence_number_', floor=3)
     chk.rule('ack-processed', 'received() and acknowledge(read_buffer) process the peer\'s NESN (acknowledge(header & nesn_flag)) and answer with next_transmit()', floor=2)
 
+    chk.rule('empty-pdu-lifecycle', 'next_empty_ is set only in next_transmit when nothing is outstanding and nothing is queued (together with empty_sequence_number_ = sequence_number_), and cleared only by a reset or in acknowledge(nesn) under exactly next_empty_ && empty_sequence_number_ != nesn', floor=3)
     chk.rule('ring-alloc-keeps-gap', 'pdu_ring_buffer::alloc_front: a region that ends at the read pointer end_ is granted only for size < distance (strict: front_ == end_ means empty), a region that ends at the end of the storage for size <= distance', floor=2)
     for fn in variants(facts, 'bluetoe::link_layer::pdu_ring_buffer::alloc_front', chk):
         size = fn.params[1]['n']
@@ -70,6 +71,26 @@ def run(chk, facts, tier):
         else:
             ok, why = False, 'unexpected writer of the transmit sequence number'
         chk.instance('sn-writers', fn, '%s %s %s' % (SN, op, val.text() if val is not None else ''), ok, '' if ok else why, node=st, key='store SN in ' + fn.name)
+
+    # the self generated empty PDU: created with the current SN, repeated until exactly that SN is acknowledged
+    for fn, tgt, op, val, st in field_stores(facts, 'next_empty_', BUF):
+        ats = guard_atoms(fn, st) if op != 'init' else []
+        if op == 'init' or fn.name in ('ll_data_pdu_buffer', 'reset_pdu_buffer'):
+            ok, why = (op == 'init' or cval(val) == 0), 'a reset buffer has no empty PDU outstanding'
+        elif fn.name == 'next_transmit':
+            ok = cval(val) == 1 and has_atom(ats, lambda n: is_name(n, 'next_empty_'), {'=='}, lambda o: cval(o) == 0) and any(op2 == '==' and cval(r) == 0 and mentions(l, 'next') for l, op2, r in ats if not isinstance(l, int))
+            same = [s2 for t2, o2, v2, s2 in stores(fn.body) if target_name(t2) == 'empty_sequence_number_' and fn.block_of(s2) == fn.block_of(st) and is_name(v2, SN)]
+            ok = ok and len(same) == 1
+            why = 'an empty PDU is created outside (!next_empty_ && nothing to send) or without remembering its sequence number'
+        elif fn.name == 'acknowledge':
+            acked = any(o2 == '!=' and not isinstance(r, int) and {strip_casts(l).n, strip_casts(r).n} == {'empty_sequence_number_', fn.params[0]['n']} for l, o2, r in ats)
+            pending = has_atom(ats, lambda n: is_name(n, 'next_empty_'), {'!='}, lambda o: cval(o) == 0)
+            ok = cval(val) == 0 and acked and pending and len(ats) == 2
+            why = ('the outstanding empty PDU is given up under (%s), not exactly when the central acknowledged it (empty_sequence_number_ != nesn): the next PDU goes out with the following SN although the empty one may still have to be repeated - '
+                   'the central takes it for a retransmission, drops it, and its NESN then releases a data PDU that was never accepted' % ' && '.join('%s %s %s' % (l.text() if not isinstance(l, int) else l, o2, r.text() if not isinstance(r, int) else r) for l, o2, r in ats))
+        else:
+            ok, why = False, 'unexpected writer of next_empty_'
+        chk.instance('empty-pdu-lifecycle', fn, 'next_empty_ %s %s in %s' % (op, val.text() if val is not None else '', fn.name), ok, '' if ok else why, node=st, key='next_empty_ in %s' % fn.name)
 
     for fn, tgt, op, val, st in field_stores(facts, NESN, BUF):
         if op == 'init' or fn.name == 'll_data_pdu_buffer':
